@@ -92,6 +92,89 @@ mod vharness {
         }
     }
 
+    const HEXL: [u8; 16] = *b"0123456789abcdef";
+    const HEXU: [u8; 16] = *b"0123456789ABCDEF";
+    fn hex4(out: &mut [u8], at: usize, cu: u16, upper: bool) {
+        let t = if upper { &HEXU } else { &HEXL };
+        out[at] = t[(cu >> 12) as usize & 15]; out[at + 1] = t[(cu >> 8) as usize & 15]; out[at + 2] = t[(cu >> 4) as usize & 15]; out[at + 3] = t[cu as usize & 15];
+    }
+    fn is_sur(cu: u16) -> bool { cu >= 0xD800 && cu <= 0xDFFF }
+    fn enc(buf: &mut [u8; 8], n: &mut usize, cp: u32) {
+        if cp < 0x80 { buf[*n] = cp as u8; *n += 1; }
+        else if cp < 0x800 { buf[*n] = 0xC0 | (cp >> 6) as u8; buf[*n + 1] = 0x80 | (cp & 0x3F) as u8; *n += 2; }
+        else if cp < 0x10000 { buf[*n] = 0xE0 | (cp >> 12) as u8; buf[*n + 1] = 0x80 | ((cp >> 6) & 0x3F) as u8; buf[*n + 2] = 0x80 | (cp & 0x3F) as u8; *n += 3; }
+        else { buf[*n] = 0xF0 | (cp >> 18) as u8; buf[*n + 1] = 0x80 | ((cp >> 12) & 0x3F) as u8; buf[*n + 2] = 0x80 | ((cp >> 6) & 0x3F) as u8; buf[*n + 3] = 0x80 | (cp & 0x3F) as u8; *n += 4; }
+    }
+
+    //@harness props=C20,C05,C01 strength=proof tier=thorough clause="std.parseJson on two adjacent \\uXXXX escapes, for EVERY pair of 16-bit code units and either hex-digit case (RFC 8259 section 7): a non-surrogate unit is that code point and the next escape is decoded independently; a high surrogate followed by a low surrogate is the one supplementary code point; every other surrogate combination is rejected; every VALID document of this shape is accepted" timeout=1200 replay=json_unicode_pair
+    #[kani::proof]
+    #[kani::unwind(9)]
+    fn json_string_unicode_escape_pair() {
+        let (cu1, cu2): (u16, u16) = (kani::any(), kani::any());
+        let upper: bool = kani::any();
+        let mut input = *b"\"\\u0000\\u0000\"";
+        hex4(&mut input, 3, cu1, upper); hex4(&mut input, 9, cu2, upper);
+        let text = unsafe { core::str::from_utf8_unchecked(&input[..]) };
+        let mut lx = Lexer { line: 0, column: 0, rem: text };
+        let r = lx.lex_string();
+        let mut want = [0u8; 8]; let mut n = 0usize; let mut want_ok = true;
+        if !is_sur(cu1) {
+            enc(&mut want, &mut n, cu1 as u32);
+            if !is_sur(cu2) { enc(&mut want, &mut n, cu2 as u32); } else { want_ok = false; }
+        } else if cu1 < 0xDC00 && cu2 >= 0xDC00 && cu2 <= 0xDFFF {
+            enc(&mut want, &mut n, 0x10000 + (((cu1 - 0xD800) as u32) << 10) + (cu2 - 0xDC00) as u32);
+        } else { want_ok = false; }
+        match r {
+            Ok(Some(s)) => { assert!(want_ok, "C20:jsonlex:invalid-surrogate-combination-is-rejected"); assert!(same(s.as_bytes(), &want[..n]), "C20:jsonlex:unicode-escapes-decode-to-exactly-their-code-points"); assert!(lx.rem.is_empty(), "C20:jsonlex:string-is-consumed-to-its-closing-quote-columns-count-characters"); }
+            Ok(None) => assert!(false, "C20:jsonlex:a-quoted-string-is-a-string"),
+            Err(e) => { assert!(!want_ok, "C20:jsonlex:valid-escape-pairs-are-accepted"); assert!(matches!(e.kind, ParseErrorKind::InvalidStringEscape), "C20:jsonlex:unknown-escape-is-an-invalid-escape-error"); }
+        }
+    }
+
+    //@harness props=C20,C05,C01 strength=proof clause="std.parseJson on ONE \\uXXXX escape, EVERY 16-bit code unit, either hex case: a non-surrogate unit decodes to that code point, a surrogate that is not followed by another escape is rejected" timeout=900
+    #[kani::proof]
+    #[kani::unwind(6)]
+    fn json_string_unicode_escape_single() {
+        let cu1: u16 = kani::any();
+        let upper: bool = kani::any();
+        let mut input = *b"\"\\u0000\"";
+        hex4(&mut input, 3, cu1, upper);
+        let text = unsafe { core::str::from_utf8_unchecked(&input[..]) };
+        let mut lx = Lexer { line: 0, column: 0, rem: text };
+        let r = lx.lex_string();
+        let mut want = [0u8; 8]; let mut n = 0usize;
+        if !is_sur(cu1) { enc(&mut want, &mut n, cu1 as u32); }
+        match r {
+            Ok(Some(s)) => { assert!(!is_sur(cu1), "C20:jsonlex:invalid-surrogate-combination-is-rejected"); assert!(same(s.as_bytes(), &want[..n]), "C20:jsonlex:unicode-escapes-decode-to-exactly-their-code-points"); }
+            Ok(None) => assert!(false, "C20:jsonlex:a-quoted-string-is-a-string"),
+            Err(e) => { assert!(is_sur(cu1), "C20:jsonlex:valid-escape-pairs-are-accepted"); assert!(matches!(e.kind, ParseErrorKind::InvalidStringEscape), "C20:jsonlex:unknown-escape-is-an-invalid-escape-error"); }
+        }
+    }
+
+    //@harness props=C20,C05,C01 strength=proof clause="std.parseJson on \\uXXXX\\uYYYY whose first unit is ANY surrogate (U+D800..U+DFFF, all 2048) and whose second unit is ANY 16-bit value (lower-case hex): accepted exactly when it is a high surrogate followed by a low surrogate, and then decodes to 0x10000 + ((hi - 0xD800) << 10) + (lo - 0xDC00); every lead surrogate D800..DBFF is accepted with every trail" timeout=1200 replay=json_unicode_pair
+    #[kani::proof]
+    #[kani::unwind(9)]
+    fn json_string_surrogate_pair() {
+        let lo11: u16 = kani::any(); kani::assume(lo11 < 0x800);
+        let cu1: u16 = 0xD800 | lo11;
+        let cu2: u16 = kani::any();
+        let mut input = *b"\"\\ud000\\u0000\"";
+        // first hex digit is the concrete 'd'; the other three carry the 11 free bits
+        let t = &HEXL; input[4] = t[(cu1 >> 8) as usize & 15]; input[5] = t[(cu1 >> 4) as usize & 15]; input[6] = t[cu1 as usize & 15];
+        hex4(&mut input, 9, cu2, false);
+        let text = unsafe { core::str::from_utf8_unchecked(&input[..]) };
+        let mut lx = Lexer { line: 0, column: 0, rem: text };
+        let r = lx.lex_string();
+        let want_ok = cu1 < 0xDC00 && cu2 >= 0xDC00 && cu2 <= 0xDFFF;
+        let mut want = [0u8; 8]; let mut n = 0usize;
+        if want_ok { enc(&mut want, &mut n, 0x10000 + (((cu1 - 0xD800) as u32) << 10) + (cu2 - 0xDC00) as u32); }
+        match r {
+            Ok(Some(s)) => { assert!(want_ok, "C20:jsonlex:invalid-surrogate-combination-is-rejected"); assert!(same(s.as_bytes(), &want[..n]), "C20:jsonlex:unicode-escapes-decode-to-exactly-their-code-points"); }
+            Ok(None) => assert!(false, "C20:jsonlex:a-quoted-string-is-a-string"),
+            Err(e) => { assert!(!want_ok, "C20:jsonlex:valid-escape-pairs-are-accepted"); }
+        }
+    }
+
     //@harness props=C20,C05 strength=proof expect=fail clause="canary"
     #[kani::proof]
     #[kani::unwind(4)]
